@@ -64,6 +64,10 @@ def distance(a, b):
         # d = | (q - p) * n |
         # where n is a vector orthogonal to both lines and with length 1!
         # We can achieve this by using the normalized cross product
+        if parallel(a, b):
+            # parallel lines have no common normal direction (the cross
+            # product is zero); every point of a has the same distance to b
+            return distance(Point(a.sv), b)
         normale = a.dv.cross(b.dv).normalized()
         return abs((b.sv - a.sv) * normale)
 
